@@ -184,6 +184,15 @@ func (g *vgen) value(t *T) *V {
 			v.Elems = append(v.Elems, k, g.value(u.Elems[1]))
 		}
 		return v
+	case "en":
+		g.ctr++
+		return &V{K: "p", ID: idEnumLeaf, Bytes: hex.EncodeToString(zed.EncodeUint(uint64(g.ctr % len(u.Syms))))}
+	case "e":
+		in := g.value(u.Elems[0])
+		if in.Null {
+			return &V{Null: true}
+		}
+		return &V{K: "x", Elems: []*V{in}}
 	case "u":
 		tag := 0
 		if g.r != nil {
@@ -211,7 +220,11 @@ func randType(r *rand.Rand, depth int) *T {
 	if depth <= 0 || r.Intn(4) == 0 {
 		return p(prims[r.Intn(len(prims))])
 	}
-	switch r.Intn(10) {
+	switch r.Intn(12) {
+	case 10:
+		return &T{K: "en", Syms: [][]string{{"a", "b"}, {"a", "b", "c"}, {"x"}}[r.Intn(3)]}
+	case 11:
+		return &T{K: "e", Elems: []*T{randType(r, depth-1)}}
 	case 0, 1, 2, 3:
 		n := r.Intn(4)
 		perm := r.Perm(len(names))
